@@ -549,6 +549,10 @@ func (g *G) genC03(p *Plan, paging bool) {
 			op.Prefix = prefixes[g.rng.Intn(len(prefixes))]
 		default:
 			op.Prefix = "nomatch-" + g.pick("x", "zz")
+			if g.chance(0.5) {
+				// a prefix that names a stored key as if it were a directory
+				op.Prefix = keys[g.rng.Intn(len(keys))] + g.pick("/", "/x", "-")
+			}
 		}
 		op.Delim = delims[g.rng.Intn(len(delims))]
 		if op.Delim != "" && strings.HasPrefix(op.Prefix, op.Delim) {
